@@ -66,10 +66,13 @@ class Ctx:
         return v or 1
 
     # ---- engine library (independent of the repository under test)
-    def engine_lib(self):
+    def engine_lib(self, extra_flags=()):
+        """extra_flags: ABI-relevant flags of the harness (sanitizers change Eigen's aligned allocator, so the
+        engine must be built with the same ones)"""
+        extra_flags = [f for f in extra_flags if f.startswith('-fsanitize') or f.startswith('-fno-sanitize')]
         srcs = [os.path.join(self.engine_dir, s) for s in ENGINE_SRCS]
         hdrs = glob.glob(os.path.join(self.engine_dir, '*.h'))
-        hh = file_hash(srcs + hdrs, CXX + ' '.join(BASE_FLAGS))
+        hh = file_hash(srcs + hdrs, CXX + ' '.join(BASE_FLAGS + extra_flags))
         d = os.path.join(self.build_root, 'engine-' + hh)
         lib = os.path.join(d, 'libvf.a')
         if os.path.exists(lib):
@@ -81,7 +84,7 @@ class Ctx:
             for s in srcs:
                 o = os.path.join(d, os.path.basename(s)[:-4] + '.o')
                 objs.append(o)
-                cmd = [CXX] + BASE_FLAGS + ['-I/usr/include/eigen3', '-I' + self.engine_dir, '-c', s, '-o', o]
+                cmd = [CXX] + BASE_FLAGS + extra_flags + ['-I/usr/include/eigen3', '-I' + self.engine_dir, '-c', s, '-o', o]
                 futs.append((s, ex.submit(sh, cmd)))
             for s, f in futs:
                 r = f.result()
@@ -129,8 +132,8 @@ def build_rc_binaries(ctx, prop, stage):
     src = os.path.join(ctx.root, 'props', stage['src'])
     defs = stage.get('defs', [])
     flags = BASE_FLAGS + defs
-    d = ctx.harness_dir([src], flags)
-    lib = ctx.engine_lib()
+    lib = ctx.engine_lib(defs)
+    d = ctx.harness_dir([src], flags + [lib])
     out, fails = {}, {}
 
     def one(cfg):
@@ -181,6 +184,7 @@ def confirm_violation(exe, path, known_ids):
 
 def run_rc_stage(ctx, prop, stage, tier, res):
     t0 = time.time()
+    os.environ.update(stage.get('env', {}))   # e.g. ASAN_OPTIONS for sanitizer builds (inherited by every child)
     bins, cfails = build_rc_binaries(ctx, prop, stage)
     res['build_s'] = res.get('build_s', 0) + time.time() - t0
     for cfg, logp in cfails.items():
@@ -292,7 +296,7 @@ def run_rc_stage(ctx, prop, stage, tier, res):
                 # crash / abort of the harness itself
                 crash = os.path.join(ctx.root, 'replays', prop, '%s%s-seed%d.crash.log' % (cfg, stage.get('tag', ''), seed))
                 with open(crash, 'w') as f:
-                    f.write('rc=%d\nRC_PARAMS=seed=%d max_success=%d max_size=%d\n%s' % (rc, seed, ncases, max_size, out[-8000:]))
+                    f.write('rc=%d\nRC_PARAMS=seed=%d max_success=%d max_size=%d\n%s\n[...]\n%s' % (rc, seed, ncases, max_size, out[:3000], out[-3000:]))
                 res['violations'].append({'replay': crash, 'why': 'harness process died with status %d' % rc})
     shutil.rmtree(fragdir, ignore_errors=True)
 
@@ -457,6 +461,7 @@ def do_replay(ctx, prop, pdef, path):
         if stage.get('tag', '') != tag or cfg not in cfgs:
             continue
         st = dict(stage); st['configs'] = [cfg]
+        os.environ.update(stage.get('env', {}))
         bins, fails = build_rc_binaries(ctx, prop, st)
         if not bins.get(cfg):
             print(open(fails[cfg]).read()[-3000:])
